@@ -312,8 +312,8 @@ def pf_subscribe(c):
 
 
 canary('subscription credited twice', Portfolio, 'subscribe_funds', 'self.cash += amount', 'self.cash += amount + amount')(pf_subscribe)
-canary('subscription event carries unrounded balance', Portfolio, 'subscribe_funds',
-       'self.current_dt, amount, self.cash\n', 'self.current_dt, amount, self.cash + 0.001\n')(pf_subscribe)
+canary('subscription event carries a wrong balance', Portfolio, 'subscribe_funds',
+       'create_subscription(self.current_dt, amount, self.cash)', 'create_subscription(self.current_dt, amount, self.cash + 0.01)')(pf_subscribe)
 canary('credit before the negative-amount check', Portfolio, 'subscribe_funds',
        'self.current_dt = dt\n', 'self.current_dt = dt\n        self.cash += amount; self.cash -= amount; self.history.append(None) if amount < 0 else None\n')(pf_subscribe)
 
@@ -416,7 +416,7 @@ def spec_pre_clock(c):
 canary('commission not charged on sells', Portfolio, 'transact_asset',
        'txn_total_cost = txn_share_cost + txn.commission', 'txn_total_cost = txn_share_cost + (txn.commission if txn.quantity > 0 else 0.0)')(pf_transact)
 canary('cash rounded to cents after a fill', Portfolio, 'transact_asset', 'self.cash -= txn_total_cost', 'self.cash = round(self.cash - txn_total_cost, 2)')(pf_transact)
-canary('sell credit sign lost', Portfolio, 'transact_asset', 'credit=-1.0 * round(\n                    txn_total_cost, 2\n                )', 'credit=round(txn_total_cost, 2)')(pf_transact)
+canary('sell credit sign lost', Portfolio, 'transact_asset', 'credit=-1.0 * round(txn_total_cost, 2)', 'credit=round(txn_total_cost, 2)')(pf_transact)
 canary('position deleted when buy side is empty', PositionHandler, 'transact_position',
        'if self.positions[asset].net_quantity == 0:', 'if self.positions[asset].buy_quantity == 0:')(pf_transact)
 canary('flip through zero re-opens from the whole fill', PositionHandler, 'transact_position',
